@@ -48,7 +48,8 @@ Definition isa_shows (img : list Z) (inp : list Z) (n : nat) (b : behaviour) : P
      - the program is in the FRAGMENT -- global val, var and array declarations (array lengths literal); procedures and
        functions with value and array formals and var locals that hide no global; the statements and expressions of
        (4)..(4d), including reads a[e] and assignments a[e1] := e2 of global arrays and of array formals, and array
-       names (global arrays, array formals) as actuals of array formals (passed by address); constants that do not fit an immediate
+       names (global arrays, array formals) as actuals of array formals (passed by address), and the system call get
+       (console input, end of input = 255) as the whole right-hand side of an assignment or value of a return; constants that do not fit an immediate
        operand must be listed in the pool parameter -- otherwise model_compile returns None;
      - model_compile's built-in VALIDATION succeeded (it returns None otherwise): the ISA's decoder reads the stub
        and every procedure's code at the layout's label positions, the loaded words hold those bytes, the stack
@@ -140,25 +141,31 @@ Print Assumptions C01_expr_fragment_partial.
    name, or an array formal) denotes such a g in XSem's state and that its word holds abase g, and that every
    assigned element of every such g is in its cell); and, as the WHOLE
    right-hand side of an assignment or
-   the whole value of a return, a call f(e1..en) of a function with call-free actuals (cgx; see (4c)).  `cs` models StmtCodeGen and genSysCall (call-free
+   the whole value of a return, a call f(e1..en) of a function with call-free actuals (cgx; see (4c)) or the system
+   call get `2(s)` with a call-free stream (genSysCall in an expression: the stream to the outgoing word sp+2, LDAC 2;
+   SVC; LDAM 1; LDAI 1 -- the ISA puts the byte into the outgoing word sp+1; XSem: a console byte mod 256, or 255 at the
+   end of the input without consuming; file streams are Unsupported in XSem, nothing claimed).  `cs` models StmtCodeGen and genSysCall (call-free
    actuals) as handed to OptimiseDirectives, i.e. BEFORE its three peephole rewrites (tools/c01.py ties
    prologue ++ cs body ++ epilogue, with the peepholes applied by the executable `peephole`, to `xcmp -S`).
    stmt_ok f: whatever XSem.exec with fuel f answers for the statement from a state st related to the memory m
    (Rel: protected words intact, mem[1] = sp, every variable's word holds its value, a frame exists, and no local
    constant of the running frame bears the name of a callable procedure), the code run
-   by Isa.run from its first byte (any areg, breg) does the same:
-     Ret Normal st'       : it emits exactly the Write events of the outputs XSem added (post), consumes no input,
+   by Isa.run from its first byte (any areg, breg), with the console holding what XSem has not consumed yet
+   (console inp = input st), does the same:
+     Ret Normal st'       : the Write events among the events it emits are exactly the outputs XSem added, every input
+                            byte is either still in XSem's input or counted in ncons (post), the machine's console is
+                            then XSem's remaining input (adv inp st'; the files are untouched), it
                             ends just behind the code, in a memory related to st';
      Ret (Returned v) st' : likewise, but ends at the procedure's exit label with areg = v mod 2^32;
-     Halt c st'           : it emits those events (hpost: outputs, input position, arrays as XSem says) and then
+     Halt c st'           : it emits those events (hpost: outputs and input accounting as XSem says) and then
                             performs the exit system call with value c mod 2^32;
      Fail _               : nothing is claimed (the program is not well-defined / out of fuel).
    By induction on the fuel, so for any number of loop iterations and any nesting.
    Layout hypotheses: temporaries and outgoing area (sp .. sp+og-1) inside memory, unprotected, not word 1,
    disjoint from each other and from the variables; distinct variables have distinct words; sp+2 usable by `stop`.
    Missing for C01_full: calls inside operands of an operator or as actuals (procedure-call statements and function
-   calls as a whole right-hand side: see (4c), (4d)),
-   get, local arrays and strings, the peephole pass, and the layout of whole programs. *)
+   calls as a whole right-hand side: see (4c), (4d)), get inside an operand or as an actual,
+   local arrays and strings, the peephole pass, and the layout of whole programs. *)
 Theorem C01_stmt_fragment_partial :
   forall (venv aenv : string -> option loc) (garr : string -> bool) (abase alen_of : string -> Z) (pool : Z -> option Z) (size nslots off0 og : Z)
          (exitl : label) (ge : genv) (P : Z -> Prop) (m0 : WMap.t) (lab : label -> Z) (sp : Z),
@@ -189,10 +196,11 @@ Theorem C01_stmt_normal_partial :
     stmt_ok pinfo Fr Dq venv aenv garr abase alen_of pool size nslots off0 og exitl ge P m0 lab sp f ->
     forall s n code n' st st', cs pinfo venv pool size nslots aenv off0 og exitl s n = Some (code, n') ->
     exec f ge s st = Ret Normal st' ->
-    forall m pos nxt a b inp, Rel pinfo Dq venv aenv garr abase alen_of ge P m0 sp st m -> code_at (C P m0) lab pos code nxt ->
+    forall m pos nxt a b inp, Rel pinfo Dq venv aenv garr abase alen_of ge P m0 sp st m -> console inp = input st ->
+    code_at (C P m0) lab pos code nxt ->
     0 <= pos -> nxt < W -> 0 <= lab exitl < W ->
     exists outs a' b' m',
-      runs inp (mk pos a b 0 m) (map wr_ev outs) inp (mk nxt a' b' 0 m') /\
+      runs inp (mk pos a b 0 m) outs (adv inp st') (mk nxt a' b' 0 m') /\
       Rel pinfo Dq venv aenv garr abase alen_of ge P m0 sp st' m' /\ post st st' outs /\
       frame_only Fr venv garr abase alen_of size nslots off0 og sp m m'.
 Proof. exact stmt_normal. Qed.
@@ -346,31 +354,35 @@ Proof. exact cproc_lowered_simple. Qed.
 Print Assumptions C01_cproc_lowered_shape.
 
 (* (4e) NON-VACUITY of (4d): a program with a non-empty procedure table for which every hypothesis is discharged.
-   The program (coq/XCodegenDemo.v):  val put = 1; var g; array a[4];
+   The program (coq/XCodegenDemo.v):  val put = 1; val get = 2; var g; array a[4]; var ch;
        func fd(val k) is if k = 0 then return 7 else return fd(k - 1)
        proc cd(val n, array b) is var t;
          { t := n + 48; put(t, 0); g := g + n; b[n] := t; if n = 0 then skip else cd(n - 1, b) }
-       proc main() is { g := 0; cd(3, a); g := fd(g); g := g + a[2] }
+       proc main() is { g := 0; cd(3, a); g := fd(g); g := g + a[2]; ch := get(0); put(ch, 0) }
    -- a recursive procedure with a value formal, an array formal and a local that assigns elements of the global array
    it was handed by address and passes it on, a recursive
-   function used as `return f(..)` and as `x := f(..)`, all called with call-free actuals, and a read of the array.  XConstProp.front only
-   turns put(..) into the system call (C01_demo_front); XSem gives it the outputs "3210" (C01_demo_spec).
+   function used as `return f(..)` and as `x := f(..)`, all called with call-free actuals, a read of the array, and one
+   byte read from the console by get and echoed.  XConstProp.front only
+   turns put(..) and get(..) into the system calls (C01_demo_front); with the console bytes 66 67 XSem gives it the
+   outputs "3210B" and one byte consumed (C01_demo_spec).
    Its image is laid out as xcmp does (BR _start; DATA 199993; g; a's word = 199996; _start: LDAP _exit; BR main; ..)
    from the model's lowered code -- prologue ++ cs body ++ exit label ++ epilogue, BEFORE the peepholes, which is the
-   code (4d) speaks of -- by the assembler model AsmLayout.assemble_directives (C01_demo_assembled: 172 bytes).  The
+   code (4d) speaks of -- by the assembler model AsmLayout.assemble_directives (C01_demo_assembled: 196 bytes).  The
    ISA runs that image from reset to the spec's behaviour (C01_demo_image_runs, by computation).
    prog_hyps is the conjunction of the hypotheses of C01_calls_partial, word for word (C01_calls_of_hyps derives the
-   theorem from it); C01_calls_nonvacuous_hyps: it holds for the demo, with P = the code words 5..42, m0 = the loaded
+   theorem from it); C01_calls_nonvacuous_hyps: it holds for the demo, with P = the code words 6..48, m0 = the loaded
    image, lab = the label positions of the layout, stack_lo = 1000, stack_hi = 199996, maxframe = 6, depth bound 10.  The code_at
    hypotheses are established by running the ISA's own decoder over the image (XCodegenImage.code_chk_sound through
    C01_instr_at_of_decode).
-   C01_calls_nonvacuous_run: the theorem applied.  From main's frame (mem[1] = 199989, g unassigned, a empty) the
-   ISA runs the code of main's body `g := 0; cd(3, a); g := fd(g); g := g + a[2]` at bytes [136, 165) -- four nested
+   C01_calls_nonvacuous_run: the theorem applied.  From main's frame (mem[1] = 199988, g and ch unassigned, a empty,
+   the console holding 66 67) the ISA runs the code of main's body
+   `g := 0; cd(3, a); g := fd(g); g := g + a[2]; ch := get(0); put(ch, 0)` at bytes [140, 187) -- four nested
    activations of cd, each with prologue, output, an element assignment through the array formal, recursive call
    handing the array on, and epilogue, then seven of
-   the function fd, each handing its result back through the caller's outgoing word, then the array read -- to the
-   end of that code, emitting exactly Write 51, 50, 49, 48 on stream 0 and consuming no input; mem[1] is 199989
-   again, g's word holds 57 = fd(6) + a[2] and the cell of a[2] (word 199998) holds 50.  Not by running the ISA: by
+   the function fd, each handing its result back through the caller's outgoing word, then the array read, then get
+   and put -- to the end of that code; the outputs among its events are exactly 51, 50, 49, 48, 66 on stream 0, the
+   console is left with the byte 67; mem[1] is 199988
+   again, g's word holds 57 = fd(6) + a[2], ch's word 66 and the cell of a[2] (word 199998) holds 50.  Not by running the ISA: by
    C01_calls_partial from XSem's run of the statement.
    demo_cproc_cd / _main / _fd (XCodegenDemo.v): what the executable model (with its peephole pass) generates for
    the three; tools/c01.py (coq_demo_listing_tie) re-checks these instruction lists, as written in coq/XCodegenDemo.v,
@@ -388,22 +400,23 @@ Theorem C01_calls_nonvacuous_hyps :
 Proof. exact demo_hyps. Qed.
 Print Assumptions C01_calls_nonvacuous_hyps.
 
-Theorem C01_calls_nonvacuous_run : forall a b inp, exists a' b' m',
-  runs inp (mk 136 a b 0 (wr demo_m0 1 199989)) [Write 51 0; Write 50 0; Write 49 0; Write 48 0] inp (mk 165 a' b' 0 m') /\
-  rd m' 1 = 199989 /\ rd m' 2 = 57 /\ rd m' 199998 = 50.
+Theorem C01_calls_nonvacuous_run : forall a b inp, console inp = [66; 67] -> exists evs a' b' m',
+  runs inp (mk 140 a b 0 (wr demo_m0 1 199988)) evs {| console := [67]; files := files inp |} (mk 187 a' b' 0 m') /\
+  writes evs = [(0, 51); (0, 50); (0, 49); (0, 48); (0, 66)] /\
+  rd m' 1 = 199988 /\ rd m' 2 = 57 /\ rd m' 4 = 66 /\ rd m' 199998 = 50.
 Proof. exact demo_main_body_runs. Qed.
 Print Assumptions C01_calls_nonvacuous_run.
 
 Example C01_demo_front : XConstProp.front demo_src = XConstProp.COk demo.
 Proof. exact demo_front. Qed.
-Example C01_demo_spec : run_fuel 100 1000 10 demo [] =
-  Behaviour {| outputs := [(0, 51); (0, 50); (0, 49); (0, 48)]; consumed := 0; exit_value := 0 |}.
+Example C01_demo_spec : run_fuel 100 1000 10 demo [66; 67] =
+  Behaviour {| outputs := [(0, 51); (0, 50); (0, 49); (0, 48); (0, 66)]; consumed := 1; exit_value := 0 |}.
 Proof. exact demo_spec. Qed.
 Example C01_demo_assembled : exists o, AsmLayout.assemble_directives demo_dirs [] = AsmModel.Ok o /\ AsmLayout.ao_image o = demo_bytes /\
   map (fun l => (l, lab_of (AsmLayout.ao_layout o) l)) demo_label_names = demo_labs.
 Proof. exact demo_assembled. Qed.
-Example C01_demo_image_runs : isa_shows (words_of_bytes demo_bytes) [] 600
-  {| outputs := [(0, 51); (0, 50); (0, 49); (0, 48)]; consumed := 0; exit_value := 0 |}.
+Example C01_demo_image_runs : isa_shows (words_of_bytes demo_bytes) [66; 67] 700
+  {| outputs := [(0, 51); (0, 50); (0, 49); (0, 48); (0, 66)]; consumed := 1; exit_value := 0 |}.
 Proof. vm_compute. repeat split. Qed.
 
 (* (4f) PARTIAL, the end-to-end statement: C01_full for the model compile function, for every choice of frame
@@ -416,14 +429,16 @@ Proof. vm_compute. repeat split. Qed.
    Claim: if XSem.run p inp = Behaviour b (fuel 10^6, 2*10^6 statements, depth 2000) and model_compile returns an
    image, then the ISA started on that image (Isa.boot: words at address 0, registers clear, pc = 0) performs,
    within some number of instructions, exactly the outputs of b in order, consumes as many console bytes as b says
-   (none: `get` is outside the fragment) and exits with b's exit value.
+   (`get` is in the fragment: the console the ISA is left with is XSem's remaining input) and exits with b's exit value.
    Proof: reset, BR _start, the stub's LDAP _exit; BR main (one instruction each, from the validated decoder
    facts); main called from a two-word root frame at 199997 by C01_call_ok_partial, whose hypotheses are derived
    from the validation (the_hyps); the exit stub, or the program's own exit.
    See the comment at C01_full for exactly what this adds to the full statement.
    C01_program_nonvacuous: the theorem applied to the demo program of (4e) -- its validated image demo_image
-   (43 words) shows the spec's behaviour "3210", exit 0.  C01_demo_model_image: model_compile returns that image.
-   demo_model_image_opt (XCodegenDemo.v): with opt = true it returns 42 words, which tools/c01.py re-checks against
+   (49 words), started with the console bytes 66 67, shows the spec's behaviour: outputs "3210B", one byte consumed,
+   exit 0; C01_program_nonvacuous_eof: started with an empty console it writes "3210" and the byte 255 (get at the end
+   of the input) and consumes nothing.  C01_demo_model_image: model_compile returns that image.
+   demo_model_image_opt (XCodegenDemo.v): with opt = true it returns 48 words, which tools/c01.py re-checks against
    the binary the real xcmp writes for the same source (coq_demo_image_tie), and does the same for generated
    fragment programs (program_model_tie: byte-identical images counted in the evidence). *)
 Theorem C01_program_partial : forall prm : params, C01_full (model_compile prm false).
@@ -431,9 +446,13 @@ Proof. exact program_correct. Qed.
 Print Assumptions C01_program_partial.
 
 Theorem C01_program_nonvacuous : exists n,
-  isa_shows demo_image [] n {| outputs := [(0, 51); (0, 50); (0, 49); (0, 48)]; consumed := 0; exit_value := 0 |}.
+  isa_shows demo_image [66; 67] n {| outputs := [(0, 51); (0, 50); (0, 49); (0, 48); (0, 66)]; consumed := 1; exit_value := 0 |}.
 Proof. exact demo_end_to_end. Qed.
 Print Assumptions C01_program_nonvacuous.
+Theorem C01_program_nonvacuous_eof : exists n,
+  isa_shows demo_image [] n {| outputs := [(0, 51); (0, 50); (0, 49); (0, 48); (0, 255)]; consumed := 0; exit_value := 0 |}.
+Proof. exact demo_end_to_end_eof. Qed.
+Print Assumptions C01_program_nonvacuous_eof.
 
 Example C01_demo_model_image : model_compile demo_frames false demo = Some demo_image.
 Proof. exact demo_model_image. Qed.
